@@ -52,6 +52,9 @@ model/Krpc.vos model/Krpc.vok model/Krpc.required_vos: model/Krpc.v model/Bytes.
 model/Check10.vo model/Check10.glob model/Check10.v.beautified model/Check10.required_vo: model/Check10.v model/Bytes.vo model/Id.vo model/Server.vo model/Bencode.vo model/Krpc.vo
 model/Check10.vio: model/Check10.v model/Bytes.vio model/Id.vio model/Server.vio model/Bencode.vio model/Krpc.vio
 model/Check10.vos model/Check10.vok model/Check10.required_vos: model/Check10.v model/Bytes.vos model/Id.vos model/Server.vos model/Bencode.vos model/Krpc.vos
+model/MostRecent.vo model/MostRecent.glob model/MostRecent.v.beautified model/MostRecent.required_vo: model/MostRecent.v model/Bytes.vo
+model/MostRecent.vio: model/MostRecent.v model/Bytes.vio
+model/MostRecent.vos model/MostRecent.vok model/MostRecent.required_vos: model/MostRecent.v model/Bytes.vos
 model/Check12.vo model/Check12.glob model/Check12.v.beautified model/Check12.required_vo: model/Check12.v gen/Params.vo model/Bytes.vo model/Crc32c.vo model/Id.vo model/Node.vo model/BSearch.vo model/Closest.vo model/RTable.vo model/Check11.vo
 model/Check12.vio: model/Check12.v gen/Params.vio model/Bytes.vio model/Crc32c.vio model/Id.vio model/Node.vio model/BSearch.vio model/Closest.vio model/RTable.vio model/Check11.vio
 model/Check12.vos model/Check12.vok model/Check12.required_vos: model/Check12.v gen/Params.vos model/Bytes.vos model/Crc32c.vos model/Id.vos model/Node.vos model/BSearch.vos model/Closest.vos model/RTable.vos model/Check11.vos
@@ -106,3 +109,9 @@ properties/C10.vos properties/C10.vok properties/C10.required_vos: properties/C1
 properties/C05.vo properties/C05.glob properties/C05.v.beautified properties/C05.required_vo: properties/C05.v model/Bytes.vo model/Id.vo model/Server.vo model/Bencode.vo model/Krpc.vo model/Check10.vo proofs/KrpcProofs.vo
 properties/C05.vio: properties/C05.v model/Bytes.vio model/Id.vio model/Server.vio model/Bencode.vio model/Krpc.vio model/Check10.vio proofs/KrpcProofs.vio
 properties/C05.vos properties/C05.vok properties/C05.required_vos: properties/C05.v model/Bytes.vos model/Id.vos model/Server.vos model/Bencode.vos model/Krpc.vos model/Check10.vos proofs/KrpcProofs.vos
+proofs/MostRecentProofs.vo proofs/MostRecentProofs.glob proofs/MostRecentProofs.v.beautified proofs/MostRecentProofs.required_vo: proofs/MostRecentProofs.v model/Bytes.vo model/MostRecent.vo proofs/ClosestProofs.vo
+proofs/MostRecentProofs.vio: proofs/MostRecentProofs.v model/Bytes.vio model/MostRecent.vio proofs/ClosestProofs.vio
+proofs/MostRecentProofs.vos proofs/MostRecentProofs.vok proofs/MostRecentProofs.required_vos: proofs/MostRecentProofs.v model/Bytes.vos model/MostRecent.vos proofs/ClosestProofs.vos
+properties/C16.vo properties/C16.glob properties/C16.v.beautified properties/C16.required_vo: properties/C16.v model/Bytes.vo model/MostRecent.vo proofs/MostRecentProofs.vo
+properties/C16.vio: properties/C16.v model/Bytes.vio model/MostRecent.vio proofs/MostRecentProofs.vio
+properties/C16.vos properties/C16.vok properties/C16.required_vos: properties/C16.v model/Bytes.vos model/MostRecent.vos proofs/MostRecentProofs.vos
